@@ -629,3 +629,32 @@ def for_loops(ctx, se):
         elem = ("field", ("downcast", info["term"], 1), 0)
         out.append({"next_bb": bb, "switch_bb": nxt, "iter_loc": it_loc, "init": init, "init_call": init_call, "elem": elem, "body_bb": tg[1], "exit_bb": tg[0], "resolved": t.get("resolved")})
     return out
+
+
+def frame_of(ctx, path, param=1, depth=0):
+    """A11: the set of top-level fields of the pointee of `param` that the function may
+    modify (through direct stores or callees), or None for 'all of it'.  Empty set = read-only."""
+    se = ctx.wrap.run(path)
+    if se is None or depth > 6:
+        return None
+    eff = se.param_effects().get(param)
+    if eff is None:
+        return set()
+    fields = set()
+    t = eff
+    while True:
+        if t[0] == "upd" and t[2][0] == "f":
+            fields.add(t[2][1])
+            t = t[1]
+            continue
+        if t[0] == "after" and is_call(t[1]) and t[1][1] in ctx.fb.bodies:
+            inner = frame_of(ctx, t[1][1], t[2] + 1, depth + 1)
+            if inner is None:
+                return None
+            fields |= inner
+            t = t[3]
+            continue
+        break
+    if t != ("deref", ("param", param)):
+        return None
+    return fields
